@@ -1,7 +1,7 @@
 """C07 - interrupting or killing ninja never poisons the next build.
 e2e: (a) every reachable crash point (NINJA_VERIF hooks) of generated scenarios is crashed (_exit(77)) and recovered;
 (b) real SIGINT/SIGTERM/SIGHUP/SIGKILL while slow commands provably run; (c) nsim: Interrupted{} at every wait index."""
-import copy, json, os, random, shutil, signal, subprocess, time
+import struct, copy, json, os, random, shutil, signal, subprocess, time
 from .. import simlib, gen, model, util, core, e2e, sched
 from ..simlib import St, all_outs
 from ..logmodel import parse_build_log, parse_deps_log, deps_view
@@ -92,6 +92,15 @@ def recover(ctx, tree, sc, what, rep, targets=None):
     if rc != 0 or b"no work to do" not in so:
         ctx.violation("C07/recovery-not-converged", "%s: run after recovery: rc=%s %s" % (what, rc, so.decode("latin-1")[-300:]), rep)
         return False
+    # whatever the dead ninja left lying around (temporary files of a recompaction it did not finish) must not come back
+    # to life when the logs are compacted later
+    rc, so, se = tree.run(["-t", "recompact"])
+    rc2, so2, se2 = tree.run(["-j3"] + (targets or []))
+    ctx.count("recompactions_after_recovery")
+    txt = (so + se + so2 + se2).decode("latin-1")
+    if rc != 0 or rc2 != 0 or b"no work to do" not in so2 or "premature end of file" in txt:
+        ctx.violation("C07/recompaction-after-recovery-loses-records", "%s: -t recompact rc=%s, then ninja rc=%s: %s" % (what, rc, rc2, txt[-400:]), rep)
+        return False
     return True
 
 
@@ -134,6 +143,23 @@ def crash_scenario(ctx, seed, quick):
             with open(lp, "ab") as f:
                 for _ in range(40):
                     f.write(body)
+        # ... and the deps log (more than 1000 dependency records, three quarters of them superseded)
+        if rng.random() < 0.25 and pre != "none" and os.path.exists(base.path(".ninja_deps")):
+            dp = base.path(".ninja_deps")
+            data = open(dp, "rb").read()
+            off, recs = 16, []
+            while off + 4 <= len(data):
+                sz = struct.unpack("<I", data[off:off + 4])[0]
+                n_ = sz & 0x7fffffff
+                if sz & 0x80000000:
+                    recs.append(data[off:off + 4 + n_])
+                off += 4 + n_
+            if recs and off == len(data):
+                with open(dp, "ab") as f:
+                    for _ in range(1100 // len(recs) + 4):
+                        for rb in recs:
+                            f.write(rb)
+                local["deps_log_grown"] = local.get("deps_log_grown", 0) + 1
         j = rng.choice((1, 3))
         base.events(clear=True)
         snap = util.scratch("ne2e-base-")
